@@ -1,8 +1,10 @@
 mod c01;
 mod c02;
 mod c04;
+mod c09;
 mod c10;
 mod c12;
+mod c17;
 mod c20;
 mod c20x;
 mod fw;
@@ -29,9 +31,11 @@ macro_rules! registry {
             "C06" => $mac!(pipechecks::C06),
             "C07" => $mac!(lc::C07),
             "C08" => $mac!(lc::C08),
+            "C09" => $mac!(c09::C09),
             "C10" => $mac!(c10::C10),
             "C12" => $mac!(c12::C12),
             "C13" => $mac!(pipechecks::C13),
+            "C17" => $mac!(c17::C17),
             "C20" => $mac!(c20::C20),
             other => {
                 eprintln!("HARNESS-ERROR unknown check id {}", other);
@@ -41,7 +45,7 @@ macro_rules! registry {
     };
 }
 
-pub const ALL_IDS: &[&str] = &["C01", "C02", "C04", "C05", "C06", "C07", "C08", "C10", "C12", "C13", "C20"];
+pub const ALL_IDS: &[&str] = &["C01", "C02", "C04", "C05", "C06", "C07", "C08", "C09", "C10", "C12", "C13", "C17", "C20"];
 
 fn arg_val(args: &[String], name: &str) -> Option<String> {
     args.iter()
